@@ -305,6 +305,20 @@ def h_uri_name(eng, case):
         c = Name.to_canonical_uri(comps)
         eng.check(env.names_equal(Name.from_str(c), comps), 'name-uri-roundtrip')
         eng.check(env.names_equal(Name.normalize(s), comps), 'name-uri-roundtrip')
+        # the caller owns what it got: components returned earlier are edited in place (they are bytearrays), and the
+        # same text is converted again - by every entry point that reads URIs
+        for res in (back, Name.normalize(s), [Component.from_str(Component.to_str(x)) for x in comps]):
+            for x in res:
+                try:
+                    x.extend(b'-edited')
+                    x[0] = 9
+                except (AttributeError, TypeError):
+                    pass
+        eng.check(env.names_equal(Name.from_str(s), comps), 'name-uri-roundtrip', sig='after-editing-earlier-results')
+        eng.check(env.names_equal(Name.normalize(s), comps), 'name-uri-roundtrip', sig='after-editing-earlier-results')
+        eng.check(env.names_equal([Component.from_str(Component.to_str(x)) for x in comps], comps), 'uri-roundtrip',
+                  sig='after-editing-earlier-results')
+        eng.check(Name.to_str(Name.from_str(s)) == s, 'name-uri-roundtrip', sig='after-editing-earlier-results')
         # the URI without the leading slash denotes the same name
         if comps:
             eng.check(env.names_equal(Name.from_str(s[1:]), comps) if not s.startswith('//') else True,
